@@ -1,4 +1,4 @@
-* C09 generator: prints every row of the decision table of MC_C09.cfg
+\* C09 generator: prints every row of the decision table of MC_C09.cfg
 SPECIFICATION GenSpec
 CONSTANTS
   MaxAttrs = 1
